@@ -30,11 +30,11 @@ OwnerOp == /\ lpc = "wait" /\ nops < MaxOps /\ fpc = -1
                 /\ LET b1 == [busy EXCEPT ![U] = Owner] IN
                      \* enter + return in one step
                      /\ IF op = OP_DISABLE
-                        THEN ereg' = [ereg EXCEPT ![U].dis = TRUE, ![U].inflight = FALSE, ![U].fl = fl] /\ fired' = [fired EXCEPT ![U] = 0]
+                        THEN ereg' = [ereg EXCEPT ![U].dis = TRUE, ![U].pdis = TRUE, ![U].inflight = FALSE, ![U].fl = fl] /\ fired' = [fired EXCEPT ![U] = 0]
                         ELSE IF op = OP_DEL
                         THEN ereg' = [ereg EXCEPT ![U] = [EvNoReg EXCEPT !.owner = Owner]] /\ fired' = fired
                         ELSE /\ ereg' = [ereg EXCEPT ![U] = [present |-> TRUE, ev |-> 0, fl |-> fl, dis |-> FALSE,
-                                                           owner |-> Owner, inflight |-> FALSE, armedBy |-> "post", early |-> 0]]
+                                                           owner |-> Owner, inflight |-> FALSE, armedBy |-> "post", early |-> 0, pdis |-> FALSE]]
                              /\ fired' = [fired EXCEPT ![U] = 0]
                      /\ busy' = busy
                 /\ armed' = (op \in {OP_ADD, OP_ENABLE})
